@@ -311,6 +311,29 @@ def norm_pred(e):
     return ('bin', op, a, b)
 
 
+def pred_truth(E, facts, pred):
+    """truth (1 / 0 / None) of a comparison expression under the path facts, in any spelling"""
+    pr = norm_pred(pred)
+    if not (isinstance(pr, tuple) and len(pr) == 4 and pr[0] == 'bin'):
+        return None
+    op, a, b = pr[1], pr[2], pr[3]
+    if op in ('Eq', 'Ne'):
+        r = eq_fact(E, facts, a, b)
+        return None if r is None else (r if op == 'Eq' else 1 - r)
+    return cmp_fact(E, facts, op, a, b)
+
+
+def says_pred(E, path, want):
+    """does the path return the truth value of `want` - as the expression itself (any spelling) or as the constant
+    that the facts of the path give it (`if len == cap { false } else { true }`)"""
+    r = path.ret
+    if r == want or same_pred(r, want):
+        return True
+    if r[0] == 'const' and r[1] in (0, 1):
+        return pred_truth(E, path.facts, want) == r[1]
+    return False
+
+
 def same_pred(x, y):
     return norm_pred(x) == norm_pred(y)
 
